@@ -274,12 +274,16 @@ func checkC14() fw.Check {
 }
 
 func runC14Concurrent(c *fw.Ctx, i int) {
-	mixes := [][]string{{"icmp4", "icmp4", "icmp4", "udp4"}, {"udp4", "udp4", "udp6", "icmp6"}, {"syn", "syn", "synP", "icmp4"}, {"sackR", "sackR", "udp4", "syn"}}
+	mixes := [][]string{{"icmp4", "icmp4", "icmp4", "udp4"}, {"udp4", "udp4", "udp6", "icmp6"}, {"syn", "syn", "synP", "icmp4"}, {"sackR", "sackR", "udp4", "syn"},
+		{"udp6", "udp6", "udp6", "icmp6"}, {"synP", "synP", "synPR", "udp6"}}
 	mix := mixes[i%len(mixes)]
+	// the last TTL grows from case to case: whatever a variant sizes by the TTL (payloads, tables) is sized anew while its
+	// siblings run
+	last := 5 + (i*3)%36
 	var specs []drive.Spec
 	for k, vn := range mix {
 		v := refmatch.VariantByName(vn)
-		sp := defaultSpec(v, 210+k, 1, 5)
+		sp := defaultSpec(v, 210+k, 1, last)
 		sp.Timeout, sp.Delay, sp.Poll = 25*time.Millisecond, 500*time.Microsecond, 3*time.Millisecond
 		sp.HandshakeTimeout = 300 * time.Millisecond
 		if v.Proto == "sack" {
@@ -298,7 +302,11 @@ func runC14Concurrent(c *fw.Ctx, i int) {
 	defer env.close()
 	defer env.closePeers()
 	env.modelFor = func(k int, e *simEnv) *pathModel {
-		m := flowPath(k, e, 4, true, 200*time.Microsecond)
+		dist := 4
+		if i%len(mixes) >= 4 {
+			dist = last - 1 // a long path: every TTL of the range is probed
+		}
+		m := flowPath(k, e, dist, true, 200*time.Microsecond)
 		for _, h := range m.hops {
 			h.delay = time.Duration(100+k*30) * time.Microsecond
 		}
